@@ -98,7 +98,7 @@ def explore_under(prog, body, config, root: List[int], max_paths: int = 40000) -
     prefix = list(root)
     n = 0
     import time as _time
-    t_end = _time.time() + float(config.get("root_time_budget", 300))
+    t_end = min(_time.time() + float(config.get("root_time_budget", 300)), float(config.get("deadline", 1e18)))
     while True:
         n += 1
         if n > max_paths or _time.time() > t_end:
@@ -164,6 +164,10 @@ def analyse_rules(repo: Optional[str], tier: str, rules: Optional[List[str]] = N
         except Exception:
             pass
     names = rules or sorted(c.name for c in prog.rule_classes())
+    import time as _time
+    # the whole analysis has a wall-clock deadline: cases not reached by then are reported as not exhausted (undecided),
+    # violations found among the explored paths are still violations
+    cfg["deadline"] = _time.time() + (600 if tier == "quick" else 2400)
     tasks = []
     for rname in names:
         for opts in RULE_OPTIONS.get(rname, [{}]):
